@@ -455,7 +455,8 @@ fn stream_scenario(s: &StreamSubject, start: usize, seeks: &[usize], k: usize, c
 	ctx.evals += 1;
 	ctx.count(if s.desc.starts_with("asset") { "runs: asset streaming scenarios" } else { "runs: generated-wav streaming scenarios" }, 1);
 	let detail = || format!("{}: stream from start position {} (frames), seeks {:?} (seek_to(frame/rate)), {} frames rendered per piece at playback rate 1, dt=1/{}; pieces {:?}", s.desc, start, seeks, k, s.rate, segs);
-	let phase = |i: usize| ["from the start position", "after 1 seek", "after 2 seeks", "after 3 seeks"][i.min(3)];
+	// streaming from the very beginning is its own feature: the known Ogg finding concerns non-zero start positions and seeks
+	let phase = |i: usize| if i == 0 && start == 0 { "from the beginning of the file" } else { ["from the start position", "after 1 seek", "after 2 seeks", "after 3 seeks"][i.min(3)] };
 	let obs = match catch(|| stream_play(s.bytes, s.rate, start, &segs)) {
 		Ok(o) => o,
 		Err(p) => {
